@@ -351,6 +351,14 @@ class IRGenerator:
             elif isinstance(item, AstStructPatch) or isinstance(item, AstUnionPatch):
                 # Handle patches later.
                 base_name = self._get_base_name(item.name, namespace.name)
+                if base_name in self._patch_data_by_canonical_name:
+                    # Keeping only one of them would silently drop fields, and
+                    # which one would depend on the order of the spec files.
+                    other, _ = self._patch_data_by_canonical_name[base_name]
+                    raise InvalidSpec(
+                        'Patch for %s already defined (%s:%d).' %
+                        (quote(item.name), other.path, other.lineno),
+                        item.lineno, item.path)
                 self._patch_data_by_canonical_name[base_name] = (item, namespace)
             elif isinstance(item, AstRouteDef):
                 route = self._create_route(env, item)
